@@ -14,53 +14,71 @@ def decode(p):
         return p
 
 
-RULE = ("a case = 1..4 cascade plans run concurrently on one real engine.Processor (workers 1..16, failOnFirstError on/off): "
-        "event trees with fan-out <=4, depth <=4, children added with NewChildMonitor+AddEvent from inside rule actions, "
-        "skipped (non-triggering) and zero-rule child events, failing rules at any position, AddEventAndWait or AddEvent+finish "
-        "handler, an error observer calling AllErrors(); seeded yields/parks at the hook points and the directed schedule "
-        "'hold a failing task between SetErrors and Finish until another task's error observer has called AllErrors'. "
-        "Compared with the model's prediction: wait returned, number of action completion stamps later than the return, "
-        "finish handler count, IsFinished of every monitor handed to AddEvent, AllErrors() as a sorted list of "
-        "(event node, rule, error text class), entries of another cascade, nil entries seen by the error observer; a process "
-        "death is the result CRASH. Non-trivial = some cascade has >=3 events and a failing rule.")
+RULE = ("a case = 1..4 cascade plans run concurrently on one real engine.Processor (workers 1..16, failOnFirstError on/off), through the "
+        "Go API or (20%) through ECAL sinks: event trees with fan-out <=4, depth <=4; children added with NewChildMonitor(prio)+AddEvent "
+        "from inside rule actions; skipped and zero-rule child events; failing rules at any position; blocking actions; nested waits "
+        "(AddEventAndWait / addEventAndWait inside an action, workers >= nested waits + 1); detached events (nil monitor, new root "
+        "monitor, ECAL scope argument, ECAL addEvent inside a for loop / a user function of the sink); ECAL sinks ending in return; "
+        "AddEventAndWait or AddEvent+finish handler, with/without finish handler and error observer (which polls AllErrors()). "
+        "Schedule modes: random yields/sleeps at the hook points; directed: hold a failing task between SetErrors and Finish until "
+        "another task's error observer called AllErrors; hold the adder after pool.AddTask until the cascade posted; hold a finisher "
+        "inside the root lock with one monitor outstanding, the zero-seer before PostEvent, a non-last finisher after Unlock; PCT "
+        "priorities. Tiny plans (<=3 events, <=2 workers) are explored exhaustively on the transition system and run 24x each. "
+        "Compared with the model per root monitor (unit), sampled at the unit's own return: wait returned, action completion stamps "
+        "later than the return, finish handler count, IsFinished of every monitor handed to AddEvent, AllErrors() as a sorted list of "
+        "(event node, rule, error class), entries of another cascade, nil entries seen by the error observer, number of completed "
+        "actions of detached cascades, units that must not start; a process death is CRASH, a wait that does not return is a hang. "
+        "Non-trivial = some cascade has >=3 events and a failing rule.")
 
 SPEC = dict(
     lean_modules=["Ecal.Props.C02"],
     shards=12,
     rule=RULE,
     trusted_base=[
-        "the transition system lean/Ecal/Model/Cascade.lean is sequentially consistent; the Go memory model is not modelled (thorough tier runs the harness with -race in addition)",
-        "atomicity of the model's events: each is one critical section of the root monitor's lock / the queue's lock / the pump's lock in the Go code (tied by replaying hook-recorded traces, not proved from the source text)",
-        "hook call sites (hooks/C02.patch, add-only verifhook.At lines) report the arguments they are given",
+        "the transition system lean/Ecal/Model/Cascade.lean is sequentially consistent; the Go memory model is not modelled (monitorBase.finished / Err / RootMonitor.finished are written and read without a common lock; the thorough tier runs the harness with -race in addition)",
+        "granularity of the model's events: tied to the Go text by the source facts of lean/Ecal/Gen/C02.lean (go/ast extractor go/cmd/harness/c02tool.go, regenerated on every run: zero test inside the critical section, post outside it, counter writes under the lock, error attached before it is registered, Finish after ProcessEvent, HandleError order, observers registered before the hand-over, AllErrors calls no asserting accessor, PostEvent filters by source, monitor ids allocated in a critical section) and by replaying hook-recorded traces; the extractor itself is trusted",
+        "Finish() sets monitorBase.finished before descendantFinished decrements the counter; the model has one event (unfinished_counts is transiently false in the safe direction in Go)",
+        "post / observerRuns are separate model events; Go runs the callbacks synchronously on the posting goroutine in registration order (the replay enforces that order)",
+        "hook call sites (hooks/C02.patch, hooks/C02b.patch: add-only verifhook.At lines) report the arguments they are given",
         "the rules a triggering event executes (C01) and their order (C10) are inputs of the model's addEvent",
     ],
     assumptions=[
-        "NewChildMonitor on a monitor is only called by an action executing under that monitor (what the ECAL addEvent builtin and the harness do); a monitor reference leaked to a goroutine outliving the action is outside the model",
-        "the processor is running while the cascade is in flight (AddEvent on a stopping pool returns an error and leaves the monitor unfinished)",
-        "'the wait does return' is proved as: an engine step is enabled whenever work is outstanding and a worker is free, and every engine step decreases a measure; weak fairness of the scheduler, terminating actions and pool liveness (C09) are assumed",
-        "a rule action calling AddEventAndWait occupies its worker while it waits: nested waits need a free worker each",
+        "NewChildMonitor on a monitor is only called by an action executing under that monitor (what the ECAL addEvent builtin and the harness do); the method is public and unguarded in Go: a monitor reference used after its action returned is outside the model (the model's newChild is simply not enabled then; not exercised against the Go code)",
+        "the processor is running while the cascade is in flight: AddEvent on a stopping/stopped pool returns an error, the child monitor created for it is never finished and an enclosing wait never returns (func_provider.go addEvent path) — excluded, recorded as a limitation",
+        "'the wait does return' is proved as wait_returns_partial: every maximal run of engine steps from a state without fresh monitors has at most workLeft steps and ends with the waiter released and the handler run; weak fairness of the Go scheduler, terminating actions and pool liveness (C09) are assumed",
+        "a rule action calling AddEventAndWait occupies its worker while it waits: with workers <= simultaneous nested waits the processor deadlocks by design (not generated; limitation)",
+        "ECAL: addEvent executed inside a for loop, inside a user function called by the sink, or inside a call argument runs with a FRESH instance state (rt_statements.go loopRuntime.Eval, rt_func.go, rt_identifier.go) and therefore starts a NEW root monitor: such events are not 'added under the monitor' of the sink's event; an enclosing addEventAndWait neither waits for them nor reports their errors (confirmed by the harness, modelled as detached cascades). The property as stated does not cover them; a user reading 'use addEvent for event cascades' may expect otherwise",
     ],
     decode=decode,
 )
 
 META = dict(
     technique=("Lean 4 invariant proof over an executable transition system of the cascade protocol (monitors, counter, error map, "
-               "queue, observer table, waiter) + correspondence: generated cascade plans run on the real engine.Processor under "
-               "seeded/directed schedules, observables compared with the model, hook-recorded traces replayed on the transition system"),
+               "queue, observer table, waiter), a shared-structure system (one observer table / pending-callback list / queue map) "
+               "with a projection theorem, source facts regenerated with go/ast and decided in Lean, exhaustive exploration of tiny "
+               "plans on the transition system, and a correspondence: generated cascade plans run on the real engine.Processor (Go API "
+               "and ECAL sinks) under random, PCT and directed schedules, observables compared with the model, hook-recorded global "
+               "traces replayed on the single-cascade and on the shared transition system"),
     level_text=("Proof (all cascade shapes, worker counts, interleavings of the sequentially consistent model): unfinished = number of "
-                "created unfinished monitors; no child after zero; finished message posted at most once and exactly when all monitors "
-                "are finished; the wait is released only after every action returned and every monitor finished; at that time AllErrors "
-                "= exactly the failed (event, rule) entries; AllErrors never meets an unfinished-monitor assertion or a nil entry; no "
-                "stuck state while a worker is free + decreasing measure (return under weak fairness). Model tied to the Go code by "
+                "created unfinished monitors; finished message posted at most once and exactly when all monitors are finished; finish "
+                "handler observer registered before the root's task can run, handler runs exactly once (negative witness for the late "
+                "registration); the wait is released only after every action returned and every monitor finished; at that time (and "
+                "when the handler runs) AllErrors = exactly the failed (event, rule) entries, failed being the history of failing "
+                "ruleReturns; AllErrors never yields a nil entry; progress while a worker is free, engine runs bounded by a measure, "
+                "quiescent => released and handler ran (wait_returns_partial; fairness assumed); conc_refines: with ONE observer table, "
+                "pending list and queue map every step projects to a step of the cascade's own system and leaves other roots' views "
+                "alone (negative witness: PostEvent without the source filter). Model tied to the Go code by 13 source facts, "
                 "differential runs and trace replay on every run."),
-    level_note=("Trusted: Lean kernel + propext/Classical.choice/Quot.sound; the event granularity of the model (validated by trace "
-                "replay, not derived from the Go source); Go memory model not modelled (-race run in the thorough tier); liveness "
-                "only under the stated fairness assumption; rule selection/order per event are inputs (C01/C10)."),
+    level_note=("Trusted: Lean kernel + propext/Classical.choice/Quot.sound; the go/ast fact extractor; the hook call sites; Go memory "
+                "model not modelled (-race run in the thorough tier); liveness only under the stated fairness assumption (full statement "
+                "in the comment at wait_returns_partial); NewChildMonitor outside an action, AddEvent on a stopping pool, nested waits "
+                "with too few workers and ECAL addEvent inside loops/functions (new root monitor, not waited for) are outside the "
+                "property as modelled — see assumptions; rule selection/order per event are inputs (C01/C10)."),
 )
 
 
 C02_FILES = ("engine/monitor.go", "engine/taskqueue.go", "engine/processor.go", "pubsub/eventpump.go",
-             "interpreter/func_provider.go", "cmd/harness/c02.go")
+             "interpreter/func_provider.go", "cmd/harness/c02.go", "cmd/harness/c02run.go")
 
 
 def race_run(ctx, shards):
@@ -291,6 +309,8 @@ def run(ctx):
     cov["distinct_nontrivial"] = len(nontrivial)
     cov["rule"] = RULE
     cov["input_distribution"] = stats
+    cov["schedule_modes"] = {k[len("schedule mode "):]: v for k, v in stats.items() if k.startswith("schedule mode ")}
+    cov["directed_schedule_steps_effective"] = {k[len("sched: "):]: v for k, v in stats.items() if k.startswith("sched: ")}
     cov["disagreements"] = len(bad)
     cov["crashes"] = crashes
     cov["traces_validated_against_impl"] = ok_traces
